@@ -133,6 +133,9 @@ PROPS["C02"] = dict(
     assumptions=["the adversary cannot forge AEAD tags", "channel-level checks use real timers with rekey interval ~150 ms"],
     subs=[
         R("C02.session_dolev_yao", "ke", "TestC02Session", 1500, 80000, steps=40),
+        R("C02.session_concurrent_send", "ke", "TestC02SessionConcurrentSend", 60, 3000),
+        R("C02.channel_rotation", "kechan", "TestC02ChannelRotation", 16, 600, shrink=5, quick=dict(checks=16, shards=4, timeout=600)),
+        R("C02.concurrent_send", "kechan", "TestC02ConcurrentSend", 40, 1500, shrink=5, quick=dict(checks=40, shards=2, timeout=600)),
     ],
 )
 
@@ -145,5 +148,20 @@ PROPS["C05"] = dict(
     assumptions=["a 300 ms observation window (60 handshake retransmission intervals) stands for 'never' in negative outcomes"],
     subs=[
         R("C05.accept_and_continuity", "kechan", "TestC05AcceptAndContinuity", 240, 8000, shrink=6, qto=600, tto=3000, shards=8, quick=dict(checks=240, shards=6, timeout=600)),
+    ],
+)
+
+PROPS["C07"] = dict(
+    level="fault_enumeration",
+    technique="enumerated adversarial prefix decision trees plus rapid-generated fault prefixes, restarts and interval configurations on real channels over a harness-owned wire; bounded-convergence-time and InitHello-count oracles",
+    level_text="The harness owns every message between two real channels: it enumerates (to the stated depth) or generates adversarial prefixes (deliver/duplicate/drop/reorder, retransmission ticks, restart of the peer), then makes the wire reliable and requires every pending Send to finish within max(50 x backoff, 2 s) while reject-after is 10x larger; rekey crossings and steady-traffic keep-alive are separate generated sub-properties. Exhaustive for the prefix tree to the reported depth, sampled otherwise.",
+    level_note="Real timers: 'eventually' is replaced by a bound 50 retransmission intervals long and 10x below the faulty latency. See DESIGN.md 6 (liveness).",
+    design_ref="4/C07",
+    assumptions=["convergence is judged against max(50 x HandshakeBackoff, 2 s) with RejectAfter 10x larger", "the restarted peer has something to send (a restart while the surviving side waits in the handshake and the restarted side stays silent is recorded separately)"],
+    subs=[
+        R("C07.converge_after_faults", "kechan", "TestC07Converge", 160, 6000, shrink=5, quick=dict(checks=160, shards=4, timeout=600)),
+        P("C07.prefix_tree", "kechan", "TestC07PrefixTree", qto=600, tto=3000),
+        R("C07.rekey_flow", "kechan", "TestC07RekeyFlow", 12, 400, shrink=5, quick=dict(checks=12, shards=4, timeout=600)),
+        R("C07.no_idle_teardown", "kechan", "TestC07NoIdleTeardown", 8, 300, shrink=5, quick=dict(checks=8, shards=4, timeout=600)),
     ],
 )
